@@ -58,7 +58,8 @@ def model_runs(quick):
                 ("tcr", cfg_text(maxn=2, maxlen=1, edgemax=2, pseudos="P0", elemkinds=("A", "B", "AB")))]
     return [("str", cfg_text(maxn=4, maxlen=2, edgemax=3, maxedges=4)),
             ("metrics", cfg_text(maxn=3, maxlen=2, metrickinds=("wlev", "lendiff"), pseudos="P3")),
-            ("metrics2", cfg_text(maxn=2, maxn2=4, maxlen=2, metrickinds=("wlev", "lendiff"), pseudos="P0", edgemax=4, maxedges=3)),
+            ("metrics2", cfg_text(maxn=2, maxn2=3, maxlen=2, metrickinds=("wlev", "lendiff"), pseudos="P0", edgemax=4, maxedges=3)),
+            ("metrics3", cfg_text(maxn=1, maxn2=4, maxlen=2, metrickinds=("wlev",), pseudos="P0", edgemax=3, maxedges=3)),
             ("two", cfg_text(maxn=3, maxn2=2, maxlen=1, edgemax=3, pseudos="P3")),
             ("two2", cfg_text(maxn=2, maxn2=2, maxlen=2, edgemax=3, pseudos="P0")),
             ("sample", cfg_text(maxn=4, maxn2=0, maxlen=2, edgemax=2, maxedges=3, pseudos="P0", maxseqs=(2, 3))),
@@ -263,7 +264,7 @@ def run(ctx):
                        "floats snapped to rationals (denominators <= 2*#pairs + 2)"]
     n = 0
     runs = model_runs(ctx.quick)
-    results = ctx.mc_batch("MCPcDelta", [(name, text, None) for name, text in runs], parallel=4, workers=4, timeout=1500)
+    results = ctx.mc_batch("MCPcDelta", [(name, text, None) for name, text in runs], parallel=4, workers=4, timeout=1500 if ctx.quick else 2700)
     for name, text in runs:
         res = results[name]
         groups = {}
